@@ -10,6 +10,7 @@ wt=$(mktemp -d /tmp/evalseed-XXXXXX); rmdir "$wt"
 git -C /repo worktree add -q --detach "$wt" HEAD || exit 2
 trap 'git -C /repo worktree remove --force "$wt" >/dev/null 2>&1; rm -rf "$wt"' EXIT
 pkgdir=$(python3 -c "import json;print(json.load(open('$src/meta.json')).get('package_dir','.'))")
+dflags=$(python3 -c "import json;print(json.load(open('$src/meta.json')).get('demo_flags',''))")
 cd "$wt"
 git apply "$src/patch.diff" || { echo "RESULT $id patch-does-not-apply"; exit 1; }
 go build ./... 2>&1 | tail -3 || true
@@ -17,11 +18,11 @@ if ! go build ./... >/dev/null 2>&1; then echo "RESULT $id does-not-build"; exit
 suite=$(go test -vet=off -count=1 ./... 2>&1 | grep -v "^ok\|no test files" | head -5)
 [ -n "$suite" ] && { echo "RESULT $id suite-fails-with-patch: $suite"; exit 1; }
 cp "$src/zz_seed_demo_test.go" "$wt/$pkgdir/zz_seed_demo_test.go"
-with=$(go test -vet=off -count=1 -run 'TestSeedDemo' ./$pkgdir/ 2>&1 | tail -3)
+with=$(go test $dflags -vet=off -count=1 -run 'TestSeedDemo' ./$pkgdir/ 2>&1 | tail -3)
 echo "$with" | grep -q "^ok" && { echo "RESULT $id demo-passes-with-patch (not a breakage)"; exit 1; }
 git checkout -q -- . ; git apply -R "$src/patch.diff" 2>/dev/null; git checkout -q -- . 
 git diff --quiet || { echo "could not revert"; }
-without=$(go test -vet=off -count=1 -run 'TestSeedDemo' ./$pkgdir/ 2>&1 | tail -3)
+without=$(go test $dflags -vet=off -count=1 -run 'TestSeedDemo' ./$pkgdir/ 2>&1 | tail -3)
 echo "$without" | grep -q "^ok" || { echo "RESULT $id demo-fails-without-patch: $without"; exit 1; }
 cd /verif
 mkdir -p /verif/seeded/$name
